@@ -421,3 +421,80 @@ def check_parent_walk(ctx, classes: typing.Iterable[ClassInfo], rule="NUL-parent
                   f"`{unparse(st)}` can run while the insertion point is the paragraph itself (e.g. an unmatched end tag): "
                   "the parser then points at the div or at None, and the next text or tag raises TypeError / AttributeError")
   return n
+
+
+# ---------------------------------------------------------------------------------------
+# NUL-htmlattr: attribute values delivered by html.parser may be None
+# ---------------------------------------------------------------------------------------
+
+def check_html_attr_values(ctx, classes, rule="NUL-htmlattr"):
+  """html.parser.HTMLParser.handle_starttag(tag, attrs) receives attrs as (name, value) pairs whose
+  value is None for an attribute written without a value (`<font color>`).  In every subclass, a
+  value component that is passed to a call or dereferenced must be known not to be None there
+  (a test on the same expression holds on every path to the use)."""
+  from ..cfg import CFG, fact_holds_at
+  from .match import is_none_test
+  n = 0
+  for c in classes:
+    if not any(unparse(b).split(".")[-1] == "HTMLParser" for b in c.node.bases):
+      continue
+    m = c.methods.get("handle_starttag") or c.methods.get("handle_startendtag")
+    if m is None:
+      continue
+    ctx.unit(c.module)
+    ps = [p_ for p_ in m.params if p_ != "self"]
+    if len(ps) < 2:
+      continue
+    attrs = ps[1]
+    # expressions that denote a value component: <item>[1] for loop items over attrs, the 2nd name of `for k, v in attrs`
+    items, values = set(), set()
+    for lp in own_nodes(m.node):
+      gens = [lp] if isinstance(lp, ast.For) else (lp.generators if isinstance(lp, (ast.ListComp, ast.GeneratorExp, ast.SetComp, ast.DictComp)) else [])
+      for g in gens:
+        if isinstance(g.iter, ast.Name) and g.iter.id == attrs:
+          if isinstance(g.target, ast.Name):
+            items.add(g.target.id)
+          elif isinstance(g.target, ast.Tuple) and len(g.target.elts) == 2 and isinstance(g.target.elts[1], ast.Name):
+            values.add(g.target.elts[1].id)
+
+    def is_value(e):
+      if isinstance(e, ast.Name) and e.id in values:
+        return True
+      return isinstance(e, ast.Subscript) and isinstance(e.value, ast.Name) and e.value.id in items and isinstance(e.slice, ast.Constant) and e.slice.value == 1
+    cfg = CFG(m.node)
+    for node in own_nodes(m.node):
+      uses = []
+      if isinstance(node, ast.Call):
+        uses += [a for a in node.args if is_value(a)]
+        if isinstance(node.func, ast.Attribute) and is_value(node.func.value):
+          uses.append(node.func.value)
+      for u in uses:
+        n += 1
+        txt = unparse(u)
+
+        def establishes(test, pol, txt=txt):
+          parts = [test]
+          if isinstance(test, ast.BoolOp) and isinstance(test.op, ast.And) and pol:
+            parts = test.values
+          for t in parts:
+            isn = is_none_test(t, lambda x: unparse(x) == txt)
+            if isn is not None and isn != pol:
+              return True
+            if unparse(t) == txt and pol:
+              return True
+          return False
+        # a guard in the same `and` chain counts as well
+        p = parent(u)
+        chain_ok = False
+        while p is not None and p is not m.node:
+          if isinstance(p, ast.BoolOp) and isinstance(p.op, ast.And):
+            idx = next((k for k, v in enumerate(p.values) if any(x is u for x in ast.walk(v))), None)
+            if idx is not None and any(establishes(v, True) for v in p.values[:idx]):
+              chain_ok = True
+          p = parent(p)
+        nid = cfg.stmt_node_containing(node)
+        ok = chain_ok or fact_holds_at(cfg, nid, establishes)
+        ctx.check(ok, rule, f"{m.qualname}|{short(node, 60)}", ctx.where(m.module, node), f"`{txt}` is tested against None first",
+                  f"`{txt}` is the value of an HTML attribute and is None for an attribute written without a value (`<font color>`); "
+                  f"`{short(node, 60)}` receives it unchecked: TypeError / AttributeError on such input")
+  return n
